@@ -41,6 +41,35 @@ macro_rules! tiers {
     };
 }
 
+/// Like `tiers!` for harnesses whose quick and thorough bounds are the same (generated program
+/// families: the tiers differ in WHICH programs are generated): only the `q` harness exists and it
+/// runs in both tiers.
+#[macro_export]
+macro_rules! tiers1 {
+    (
+        $(#[$attr:meta])*
+        $name:ident : unwind($uq:literal, $ut:literal),
+        $q:expr, $t:expr
+        $(, calls($($calls:literal),* $(,)?))?
+        $(, bounds($qb:literal, $tb:literal))?
+        $(, panics_in($($pi:literal),* $(,)?))?
+        $(, kf_witness($kf:literal))?
+        $(, exhaustive)?
+        $(, diverges)?
+        $(,)?
+    ) => {
+        pub mod $name {
+            #[allow(unused_imports)]
+            use super::*;
+            #[cfg(kani)]
+            #[kani::proof]
+            #[kani::unwind($uq)]
+            $(#[$attr])*
+            pub fn q() { $q }
+        }
+    };
+}
+
 /// Witness that the end of an interesting path is reachable (vacuity guard).
 #[macro_export]
 macro_rules! must_reach {
